@@ -615,6 +615,45 @@ def run(ctx):
         if not cs["ok"]:
             viol({"leaf": cs}, "text form of %s does not parse back to the value (%s -> %s)" % (cs["type"], cs["v"], cs["text"]))
 
+    # ------------------------------------------------------------------ length-prefix boundary (direct oracle on the implementation)
+    # model: from_json writes the prefix with encode_len, which is None when the count does not fit the size length
+    # (SchemaJson.encode_len_some_iff); so count <= max: accepted, prefix = count, reads back to the same JSON with no
+    # bytes left; count > max: error.
+    rc, out = c.run_bin(binp, ["lenb"], timeout=600)
+    lb = lines_of(out) if rc == 0 else []
+    if rc != 0 or not lb:
+        ctx.violation({"layer": "harness run lenb", "output": out[-2000:]}, "harness crashed in mode lenb", no_input=True)
+    lbd = {"accepted_fits": 0, "rejected_too_long": 0, "failures": 0}
+    lbsizes = {}
+    for cs in lb:
+        seen.add(c.digest(["lenb", cs["type"], cs["s"], cs["n"]]))
+        lbsizes.setdefault("U%d" % cs["s"], set()).add(cs["n"])
+        replay = {"schema_type": cs["type"], "size_length": "U%d" % cs["s"], "element_count": cs["n"],
+                  "elements": {"String": "'a' repeated", "ByteList": "hex of bytes i mod 251", "List": "U8 i mod 251", "Set": "U32 i", "Map": "[U32 i, U8 i mod 251]"}[cs["type"]],
+                  "observed": {k: cs[k] for k in ("out", "detail", "prefix", "prefix_hex", "bytes_len", "back", "back_detail", "used", "same_json") if k in cs}}
+        why = None
+        if cs["fits"]:
+            if cs["out"] != "ok":
+                why = "a length that fits the size length is not accepted (%s)" % cs["out"]
+            elif cs.get("prefix") != str(cs["n"]):
+                why = "the length prefix written (%s) is not the element count" % cs.get("prefix")
+            elif cs.get("back") != "ok" or cs.get("used") != cs["bytes_len"] or not cs.get("same_json"):
+                why = "the bytes written do not read back to the same JSON with no bytes left"
+            else:
+                lbd["accepted_fits"] += 1
+        else:
+            if cs["out"] == "ok":
+                why = "a length that does not fit the size length is accepted and written with prefix %s (must be an error)" % cs.get("prefix")
+            elif cs["out"] != "ERR":
+                why = "a length that does not fit the size length ends in %s instead of an error" % cs["out"]
+            else:
+                lbd["rejected_too_long"] += 1
+        if why:
+            lbd["failures"] += 1
+            viol(replay, "length prefix boundary: %s(%s) with %d elements: %s" % (cs["type"], replay["size_length"], cs["n"], why))
+    ctx.notes["length_prefix_boundary_stream"] = {"cases": len(lb), "result": lbd, "types": "String, ByteList, List(U8), Set(U32), Map(U32,U8)",
+                                                  "element_counts": {k: sorted(v) for k, v in lbsizes.items()}}
+
     # ------------------------------------------------------------------ LEB128 forms, VersionedModuleSchema::new, base64 (vm_compute on the new definitions)
     try:
         ext_streams(ctx, binp, quick, viol, seen, nontrivial, min(depth, 32))
@@ -629,7 +668,7 @@ def run(ctx):
         "O4_leaf_parser_panics_skipped": counters["o4_leaf_panics"],
     }
 
-    n_eval = len(cases) + len(bcases) + len(scases) + len(ct) + len(lf) + ctx.notes.get("extended_streams_evaluations", 0)
+    n_eval = len(cases) + len(bcases) + len(scases) + len(ct) + len(lf) + len(lb) + ctx.notes.get("extended_streams_evaluations", 0)
     ctx.cov["evaluations"] = n_eval
     ctx.cov["traces_validated_against_impl"] = len(live) + len(bcases) + len(owners)
     ctx.cov["distinct_nontrivial"] = len(nontrivial)
